@@ -1165,6 +1165,20 @@ func c23BuildCases(r *findings.Run) []c23Case {
 			cases = append(cases, c23LinesCase("row-counts", b.String(), sep, true))
 		}
 	}
+	// separators at every alignment relative to the scanner's read boundaries (bufio.Scanner starts with a 4096 byte
+	// buffer and doubles it): a leading pad of 0..len(row)+len(sep) bytes shifts every separator across the boundaries
+	for _, sep := range []string{"||", "\r\n", "<>;", "é", ","} {
+		rowLen := 6
+		for pad := 0; pad <= rowLen+len(sep); pad++ {
+			var b strings.Builder
+			b.WriteString(strings.Repeat("p", pad))
+			for i := 0; b.Len() < r.Pick(9000, 70000); i++ {
+				b.WriteString(sep)
+				fmt.Fprintf(&b, "r%05d", i)
+			}
+			cases = append(cases, c23LinesCase(fmt.Sprintf("separator-across-read-boundary/pad%d", pad), b.String(), sep, true))
+		}
+	}
 	// line lengths around bufio's 64 KiB token limit: the rows must come back, or the query must fail
 	for _, ln := range []int{4095, 4096, 4097, 65535, 65536, 70000} {
 		for _, sep := range []string{"\n", ","} {
